@@ -56,4 +56,14 @@ theorem popName_ok (n : Str) (hs : List (Str × Str)) (h : hasName n hs = true) 
     popName n hs = .ok (joinWith [cComma] (valuesOf n hs), hs.filter (fun p => p.1 ≠ n)) := by
   simp [popName, h]
 
+
+/-- the guarded `pop` never fails -/
+theorem popInto_ok (n key : Str) (st : List (Str × Str) × List (Str × Str)) :
+    popInto n key st = .ok (if hasName n st.2 then
+      (dset key (joinWith [cComma] (valuesOf n st.2)) st.1, st.2.filter (fun p => p.1 ≠ n)) else st) := by
+  unfold popInto
+  by_cases h : hasName n st.2 = true
+  · simp only [h, if_true, popName_ok n st.2 h]; rfl
+  · simp only [h]; rfl
+
 end TornadoModel.C47
